@@ -61,6 +61,32 @@ theorem star_yes_iff (cfg : Cfg) (hg : cfg.guardClass = true) (p s : List Nat) (
         · rw [hm] at h3; cases h3
         · exact ⟨sj, h, h2, h3⟩
 
+/-- `pmLoop` at a run of `*`. -/
+theorem pmLoop_star_iff (cfg : Cfg) (hg : cfg.guardClass = true) (p s : List Nat) (hs : NoNul s) (fl : Flags)
+    (pi si pj : Nat) (hstar : rd p pi = some C_STAR) (hpj : skipStars p pi = some pj)
+    (hsi : si ≤ s.length) :
+    pmLoop cfg p s fl pi si = .yes ↔
+      rd p pj = some 0 ∨ ∃ sj, si ≤ sj ∧ sj < s.length ∧ matchAt cfg p s fl pj sj = .yes := by
+  have hle := skipStars_le hpj
+  obtain ⟨c', hc'⟩ := rd_isSome hle
+  rw [pmLoop_eq]; simp only [hstar, hpj, hc']
+  by_cases h0 : c' = 0
+  · subst h0; simp
+  · have : (42 : Nat) ≠ 0 := by decide
+    simp only [h0, if_false, Option.some.injEq, false_or, this, (by decide : (42 : Nat) ≠ 63), if_true]
+    exact star_yes_iff cfg hg p s hs fl pj hle si hsi
+
+theorem pm_question' (cfg : Cfg) (p s : List Nat) (fl : Flags) (pi si : Nat) (hs : NoNul s)
+    (hq : rd p pi = some C_QUEST) (hsi : si < s.length) :
+    pmLoop cfg p s fl pi si = pmLoop cfg p s fl (pi + 1) (si + 1) := by
+  obtain ⟨c, hc, hc0, _⟩ := rd_inside hs hsi
+  rw [pmLoop_eq]; simp [hq, hc, hc0]
+
+theorem pm_question_at_end' (cfg : Cfg) (p s : List Nat) (fl : Flags) (pi : Nat)
+    (hq : rd p pi = some C_QUEST) :
+    pmLoop cfg p s fl pi s.length = .no := by
+  rw [pmLoop_eq]; simp [hq, rd_len]
+
 /-! ### literals -/
 
 /-- A character with no special meaning anywhere in a pattern. -/
